@@ -100,12 +100,16 @@ func fatal2(format string, a ...any) {
 // build compiles the props test binary from /repo's working tree (through the
 // replace directive) with the verif tag. The binary is built under a private
 // name and renamed, so concurrent drivers do not clash.
-func build(race bool) string {
+func build(race bool, fuzzTarget ...string) string {
 	name := "props.test"
 	args := []string{"test", "-c", "-tags", "verif", "-vet=off"}
 	if race {
 		name = "props.race.test"
 		args = append(args, "-race")
+	}
+	if len(fuzzTarget) > 0 {
+		name = "props.fuzz.test"
+		args = append(args, "-fuzz=^"+fuzzTarget[0]+"$")
 	}
 	tmp := filepath.Join(binDir, fmt.Sprintf(".%s.%d", name, os.Getpid()))
 	ov := overlayFile()
@@ -604,6 +608,30 @@ func run(bin, prop, tier string, seed int64, replay string, nshards int, race bo
 		}
 	}
 
+	// native coverage-guided fuzzing (thorough tier of the byte-level properties)
+	var fuzzStats map[string]any
+	if tier == "thorough" && (prop == "C01" || prop == "C02" || prop == "C09" || prop == "C14") && os.Getenv("VERIF_NOFUZZ") == "" {
+		secs := 180
+		if v := os.Getenv("VERIF_FUZZ_S"); v != "" {
+			if n, err := strconv.Atoi(v); err == nil {
+				secs = n
+			}
+		}
+		var fv []violation
+		fuzzStats, fv = nativeFuzz(prop, secs, scratch)
+		for _, v := range fv {
+			isKnown := false
+			for _, k := range known {
+				if k.Status == "known" && k.Key == v.Key {
+					isKnown = true
+				}
+			}
+			if !isKnown {
+				violations = append(violations, v)
+			}
+		}
+	}
+
 	// race detector reports (C16): the log files GORACE wrote next to the shard logs
 	if race {
 		matches, _ := filepath.Glob(filepath.Join(workDir, "shard*.log.race.*"))
@@ -779,6 +807,9 @@ func run(bin, prop, tier string, seed int64, replay string, nshards int, race bo
 		"inconclusive":        inconclusive,
 		"shards":              nshards,
 	}
+	if fuzzStats != nil {
+		cov["native_fuzz"] = fuzzStats
+	}
 	if len(uniq) > 0 {
 		cov["violations"] = uniq
 	}
@@ -829,6 +860,69 @@ func run(bin, prop, tier string, seed int64, replay string, nshards int, race bo
 		return 2
 	}
 	return 0
+}
+
+var fuzzExecRe = regexp.MustCompile(`execs: (\d+) .*new interesting: (\d+) \(total: (\d+)\)`)
+var fuzzFailRe = regexp.MustCompile(`Failing input written to (\S+)`)
+var fuzzKeyRe = regexp.MustCompile(`FUZZ-VIOLATION key=("(?:[^"\\]|\\.)*")`)
+
+// nativeFuzz runs the property's FuzzCNN target for secs seconds from the
+// instrumented test binary; a crasher is converted into a replay file of the
+// campaign "native-fuzz".
+func nativeFuzz(prop string, secs int, scratch string) (map[string]any, []violation) {
+	target := "Fuzz" + prop
+	bin := build(false, target)
+	defer os.Remove(bin)
+	cache := filepath.Join(scratch, "fuzzcache")
+	_ = os.MkdirAll(cache, 0o755)
+	propsDir := filepath.Join(verifDir, "props")
+	crashDir := filepath.Join(propsDir, "testdata", "fuzz", target)
+	_ = os.RemoveAll(crashDir)
+	cmd := exec.Command(bin, "-test.run", "^$", "-test.fuzz", "^"+target+"$", "-test.fuzztime", fmt.Sprintf("%ds", secs),
+		"-test.fuzzcachedir", cache, "-test.parallel", "14")
+	cmd.Dir = propsDir
+	cmd.Env = append(os.Environ(), "VERIF_DIR="+verifDir, "VERIF_SCRATCH="+scratch)
+	out, _ := cmd.CombinedOutput()
+	stats := map[string]any{"target": target, "seconds": secs, "seed_corpus": "hostile constants, a quarter of the fixtures, the scanner-state prefixes", "note": "Go's native fuzzer cannot be pinned to a seed; its saved failing input is the reproducible unit"}
+	if ms := fuzzExecRe.FindAllStringSubmatch(string(out), -1); len(ms) > 0 {
+		m := ms[len(ms)-1]
+		stats["execs"], _ = strconv.Atoi(m[1])
+		stats["interesting_inputs"], _ = strconv.Atoi(m[3])
+	}
+	var vv []violation
+	if m := fuzzFailRe.FindStringSubmatch(string(out)); m != nil {
+		key := "native-fuzz"
+		if km := fuzzKeyRe.FindStringSubmatch(string(out)); km != nil {
+			if k, err := strconv.Unquote(km[1]); err == nil {
+				key = k
+			}
+		}
+		data := readFuzzCorpusFile(filepath.Join(propsDir, m[1]))
+		rf := &replayFile{Property: prop, Campaign: "native-fuzz", Key: key, Msg: "found by go test -fuzz " + target}
+		rf.Case, _ = json.Marshal(data)
+		rp := writeReplay(rf)
+		vv = append(vv, violation{Campaign: "native-fuzz", Key: key, Msg: "native fuzzing found a failing input: " + key, Replay: rp})
+		stats["failing_input"] = rp
+	}
+	_ = os.RemoveAll(crashDir)
+	return stats, vv
+}
+
+// readFuzzCorpusFile decodes a Go fuzz corpus file holding one []byte value.
+func readFuzzCorpusFile(p string) string {
+	b, err := os.ReadFile(p)
+	if err != nil {
+		return ""
+	}
+	for _, l := range strings.Split(string(b), "\n") {
+		l = strings.TrimSpace(l)
+		if strings.HasPrefix(l, "[]byte(") && strings.HasSuffix(l, ")") {
+			if s, err := strconv.Unquote(l[len("[]byte(") : len(l)-1]); err == nil {
+				return s
+			}
+		}
+	}
+	return ""
 }
 
 // raceKey names a race by the innermost library frames of its two accesses.
